@@ -42,16 +42,15 @@ ASSUMPTIONS.update({
     "binop_for_assert": "binop_for_assert (eval.rs:7065) inspects the expression only",
     "eval_break": "eval_break: keeps the frame's base block count (PROVED in unit blocks under `for_values_present`, which is assumed here)",
     "eval_continue": "eval_continue: keeps the frame's base block count (PROVED in unit blocks)",
-    "eval_match_cases": "eval_match_cases (eval.rs) is NOT verified here: assumed to push exactly one bindings block (through eval_block) and no owner entry when it succeeds",
-    "eval_assign_update": "eval_assign_update (eval.rs) is NOT verified here: assumed to leave the bindings blocks, the pending expressions and the other frames alone and to hand back what it popped when it fails (the restore contract)",
-    "eval_let": "eval_let (eval.rs) is NOT verified here: assumed to leave the bindings blocks, the pending expressions and the other frames alone and to hand back what it popped when it fails (the restore contract)",
-    "eval_int_binop": "eval_int_binop (eval.rs) is NOT verified here: assumed to leave the bindings blocks, the pending expressions and the other frames alone and to hand back what it popped when it fails (the restore contract)",
-    "eval_float_binop": "eval_float_binop (eval.rs) is NOT verified here: assumed to leave the bindings blocks, the pending expressions and the other frames alone and to hand back what it popped when it fails (the restore contract)",
-    "eval_string_concat": "eval_string_concat (eval.rs) is NOT verified here: assumed to leave the bindings blocks, the pending expressions and the other frames alone and to hand back what it popped when it fails (the restore contract)",
+    "eval_match_cases_on": "eval_match_cases_on (eval.rs: pattern matching on the scrutinee) is NOT verified here: assumed not to touch the value stack, to push exactly one bindings block (through eval_block) and no owner entry when it succeeds, and to change nothing when it fails",
     "eval_struct_value": "eval_struct_value (eval.rs) is NOT verified here: assumed to leave the bindings blocks, the pending expressions and the other frames alone and to hand back what it popped when it fails (the restore contract)",
     "eval_call": "eval_call (eval.rs) is NOT verified here: assumed to leave the bindings blocks, the pending expressions and the other frames alone and to hand back what it popped when it fails (the restore contract)",
     "eval_method_call": "eval_method_call (eval.rs) is NOT verified here: assumed to leave the bindings blocks, the pending expressions and the other frames alone and to hand back what it popped when it fails (the restore contract)",
     "push_back_mut": "rpds::Vector::push_back_mut", "insert_mut": "rpds::HashTrieMap::insert_mut", "no_value": "Type::no_value()", "from_value": "Type::from_value inspects the value only",
+    "format_type_error_with_suggestion": "returns some ErrorMessage and does not panic", "checked_pow": "i64::checked_pow (std; functional contract in unit arith)", "wrapping_rem_euclid": "i64::wrapping_rem_euclid panics iff the divisor is 0 (std)",
+    "vfl_is_zero": "f64 == 0.0", "vfl_add": "f64 +", "vfl_sub": "f64 -", "vfl_mul": "f64 *", "vfl_div": "f64 /", "vS_new_with_room": "String::with_capacity(a.len() + b.len()): `usize` addition of two lengths of live strings cannot overflow", "vS_push": "String::push_str",
+    "from_hint": "Type::from_hint returns some Result and does not touch env", "check_type": "check_type returns some Result and does not touch env",
+    "add_new": "Bindings::add_new (eval.rs:93) inserts into the innermost block: the number of blocks is unchanged", "as_src": "-", "vexpect_value": "Option::expect",
     "vrev_cloned": "`xs.iter().rev().cloned().collect()` is the reversed copy", "check_string": "check_string (eval.rs; PROVED in unit restore): on failure it returns exactly the saved_values it was given",
     "NsGuard": "opaque stand-in for the Ref<NamespaceInfo> that `ns_info.borrow()` returns", "vns_borrow": "RefCell::borrow: reads the namespace",
     "vns_get_value": "`ns_info.values.get(&name)`: FxHashMap lookup (ghost ns_value)", "vns_is_exported": "`ns_info.exported_syms.contains(&name)`: FxHashSet membership (ghost ns_exports)",
@@ -65,7 +64,7 @@ ASSUMPTIONS.update({
     "is_underscore": "SymbolName::is_underscore", "vsym_eq": "SymbolName == SymbolName",
     "TypeNameLit": "-", "vunreachable": "unreachable!(..): a reachable call is a violation (precondition `false`)",
     "new_int": "Value::new(Value_::Int(i)) builds the Int value", "bool_val": "-", "val_eq": "-",
-    "vq_value_eq": "`==` on Value: derived PartialEq through Rc<Value_> (pointer equality or Value_::eq; unit valeq proves Value_::eq is structural equality)", "SyntaxId": "opaque stand-in", "get_var": "get_var (eval.rs) looks the symbol up in the frame's bindings AND in the namespace: its result says nothing about b_has",
+    "vq_value_eq": "`==` on Value: derived PartialEq through Rc<Value_> (pointer equality or Value_::eq; unit valeq proves Value_::eq is structural equality)", "SyntaxId": "opaque stand-in", "TypeHintRest": "the fields of TypeHint other than `position`", "get_var": "get_var (eval.rs) looks the symbol up in the frame's bindings AND in the namespace: its result says nothing about b_has",
 })
 LEMMAS = {}
 UNVERIFIED = {
@@ -103,6 +102,12 @@ WITNESSES = [
     _resume("`while` on a non-Bool", ["while 1 { 2 }"], r"steps\.eval_while_body\."),
     _resume("`&&` on a non-Bool", ["True && 1"], r"steps\.eval_boolean_binop\."),
     _resume("assignment to an unbound variable", ["nosuchvar = 1"], r"steps\.eval_assign\."),
+    {"match": r"steps\.eval_let\.", "kind": "resume-corpus", "props": ["C07"], "expect": {}, "note": "let with an unbound type hint, resumed twice",
+     "input": [{"what": "let with an unbound type hint", "session": ["let x: Nosuch = 1"], "resumes": 3},
+               {"what": "let with a wrong annotation", "session": ["let y: Int = \"a\""], "resumes": 3},
+               {"what": "destructuring let of the wrong size", "session": ["let (a, b) = (1, 2, 3)"], "resumes": 3},
+               {"what": "destructuring let of a non-tuple", "session": ["let (c, d) = 1"], "resumes": 3}]},
+    _resume("`+=` on an unbound variable / with a non-Int", ["let n = 1", "n += \"a\""], r"steps\.eval_assign_update\."),
     _resume("field access on a non-struct", ["1.field"], r"steps\.eval_dot_access\."),
     {"match": r"steps\.arm_Return\.", "kind": "json-session", "props": ["C06"],
      "input": ["if True { let leaked_local = 1 return 5 }", "leaked_local"],
@@ -235,10 +240,11 @@ pub fn eval_continue(env: &mut Env)
     ensures base(*final(env)) == base(*old(env)), others_same(*old(env), *final(env)),
 { unimplemented!() }
 #[verifier::external_body]
-pub fn eval_match_cases(env: &mut Env, expr_value_is_used: bool, scrutinee_pos: &Position, cases: &Vec<(Pattern, Block)>) -> (r: Result<(), (RestoreValues, EvalError)>)
+pub fn eval_match_cases_on(env: &mut Env, expr_value_is_used: bool, scrutinee_pos: &Position, cases: &[(Pattern, Block)], scrutinee_value: &Value) -> (r: Result<(), EvalError>)
     requires old(env).stack.0@.len() >= 1,
-    ensures others_same(*old(env), *final(env)),
+    ensures others_same(*old(env), *final(env)), vals(*final(env)) == vals(*old(env)),
         r is Ok ==> blocks(*final(env)) == blocks(*old(env)) + 1 && owners(pend(*final(env))) == owners(pend(*old(env))),
+        r is Err ==> blocks(*final(env)) == blocks(*old(env)) && pend(*final(env)) == pend(*old(env)),
 { unimplemented!() }
 /// the variable is bound in some bindings block of this frame (ghost)
 pub uninterp spec fn b_has(b: Bindings, id: InternedSymbolId) -> bool;
@@ -251,38 +257,9 @@ impl Bindings {
         ensures final(self).block_bindings@.len() == old(self).block_bindings@.len(),
     { unimplemented!() }
 }
+pub uninterp spec fn get_var_result(sym: &Symbol, env: Env) -> Option<Value>;
 #[verifier::external_body]
-pub fn get_var(sym: &Symbol, env: &Env) -> (r: Option<Value>) { unimplemented!() }
-#[verifier::external_body]
-pub fn eval_assign_update(env: &mut Env, expr_value_is_used: bool, position: &Position, variable: &Symbol, op: AssignUpdateKind) -> (r: Result<(), (RestoreValues, EvalError)>)
-    requires old(env).stack.0@.len() >= 1,
-    ensures others_same(*old(env), *final(env)), blocks(*final(env)) == blocks(*old(env)), pend(*final(env)) == pend(*old(env)),
-        r is Err ==> restores(*old(env), *final(env), r->Err_0.0.0@),
-{ unimplemented!() }
-#[verifier::external_body]
-pub fn eval_let(env: &mut Env, expr_value_is_used: bool, destination: &LetDestination, init_value_pos: &Position, hint: &Option<TypeHint>) -> (r: Result<(), (RestoreValues, EvalError)>)
-    requires old(env).stack.0@.len() >= 1,
-    ensures others_same(*old(env), *final(env)), blocks(*final(env)) == blocks(*old(env)), pend(*final(env)) == pend(*old(env)),
-        r is Err ==> restores(*old(env), *final(env), r->Err_0.0.0@),
-{ unimplemented!() }
-#[verifier::external_body]
-pub fn eval_int_binop(env: &mut Env, expr_value_is_used: bool, position: &Position, lhs_position: &Position, rhs_position: &Position, op: &BinaryOperatorSymbol) -> (r: Result<(), (RestoreValues, EvalError)>)
-    requires old(env).stack.0@.len() >= 1,
-    ensures others_same(*old(env), *final(env)), blocks(*final(env)) == blocks(*old(env)), pend(*final(env)) == pend(*old(env)),
-        r is Err ==> restores(*old(env), *final(env), r->Err_0.0.0@),
-{ unimplemented!() }
-#[verifier::external_body]
-pub fn eval_float_binop(env: &mut Env, expr_value_is_used: bool, position: &Position, lhs_position: &Position, rhs_position: &Position, op: &BinaryOperatorSymbol) -> (r: Result<(), (RestoreValues, EvalError)>)
-    requires old(env).stack.0@.len() >= 1,
-    ensures others_same(*old(env), *final(env)), blocks(*final(env)) == blocks(*old(env)), pend(*final(env)) == pend(*old(env)),
-        r is Err ==> restores(*old(env), *final(env), r->Err_0.0.0@),
-{ unimplemented!() }
-#[verifier::external_body]
-pub fn eval_string_concat(env: &mut Env, expr_value_is_used: bool, lhs_position: &Position, rhs_position: &Position) -> (r: Result<(), (RestoreValues, EvalError)>)
-    requires old(env).stack.0@.len() >= 1,
-    ensures others_same(*old(env), *final(env)), blocks(*final(env)) == blocks(*old(env)), pend(*final(env)) == pend(*old(env)),
-        r is Err ==> restores(*old(env), *final(env), r->Err_0.0.0@),
-{ unimplemented!() }
+pub fn get_var(sym: &Symbol, env: &Env) -> (r: Option<Value>) ensures r == get_var_result(sym, *env) { unimplemented!() }
 #[verifier::external_body]
 pub fn eval_struct_value(env: &mut Env, outer_expr_pos: &Position, expr_value_is_used: bool, type_symbol: TypeSymbol, field_exprs: &Vec<(Symbol, Rc<Expression>)>) -> (r: Result<(), (RestoreValues, EvalError)>)
     requires old(env).stack.0@.len() >= 1,
@@ -354,6 +331,38 @@ impl Type {
     #[verifier::external_body]
     pub fn from_value(v: &Value) -> (r: Self) { unimplemented!() }
 }
+#[verifier::external_body]
+pub fn format_type_error_with_suggestion<T>(expected: &T, value: &Value, env: &Env, suggestion: Vec<MessagePart>) -> (r: ErrorMessage) { unimplemented!() }
+pub assume_specification [i64::checked_pow] (a: i64, n: u32) -> (r: std::option::Option<i64>);
+pub assume_specification [i64::wrapping_rem_euclid] (a: i64, b: i64) -> (r: i64)
+    requires b != 0;
+#[verifier::external_body] pub fn vfl_is_zero(x: f64) -> (r: bool) { x == 0.0 }
+#[verifier::external_body] pub fn vfl_add(a: f64, b: f64) -> (r: f64) { a + b }
+#[verifier::external_body] pub fn vfl_sub(a: f64, b: f64) -> (r: f64) { a - b }
+#[verifier::external_body] pub fn vfl_mul(a: f64, b: f64) -> (r: f64) { a * b }
+#[verifier::external_body] pub fn vfl_div(a: f64, b: f64) -> (r: f64) { a / b }
+#[verifier::external_body] pub fn vS_new_with_room(a: &String, b: &String) -> (r: String) { unimplemented!() }
+#[verifier::external_body] pub fn vS_push(s: &mut String, t: &String) { unimplemented!() }
+pub use MessagePart::Code;
+impl Type {
+    #[verifier::external_body]
+    pub fn from_hint(hint: &TypeHint, types: &OpaqueMap<TypeName, TypeDefAndMethods>, type_bindings: &TypeVarEnv) -> (r: Result<Type, String>) { unimplemented!() }
+}
+#[verifier::external_body]
+pub fn check_type(value: &Value, expected: &Type, env: &Env) -> (r: Result<(), ErrorMessage>) { unimplemented!() }
+impl Bindings {
+    #[verifier::external_body]
+    pub fn add_new(&mut self, sym: &Symbol, value: Value)
+        ensures final(self).block_bindings@.len() == old(self).block_bindings@.len(),
+    { unimplemented!() }
+}
+impl AssignUpdateKind {
+    #[verifier::external_body]
+    pub fn as_src(&self) -> (r: &'static str) { unimplemented!() }
+}
+/// `Option::expect(&format!(..))`: same as expect with a literal message
+#[verifier::external_body]
+pub fn vexpect_value(v: Option<Value>) -> (r: Value) requires v is Some, ensures r == v->Some_0, { unimplemented!() }
 /// `xs.iter().rev().cloned().collect()`
 #[verifier::external_body]
 pub fn vrev_cloned(xs: &Vec<Value>) -> (r: Vec<Value>) ensures r@ == xs@.reverse() { unimplemented!() }
@@ -431,7 +440,7 @@ def build(tier):
     u.add_type(VAL, "Value_", rules=common.VALUE_TYPE_RULES)
     common.add_error_types(u)
     u.raw(common.FMT, kind="prelude")
-    common.add_env_full(u, real_typename=True, real_ast=("LetDestination", "ExpressionWithComma", "ParenthesizedArguments", "ParenthesizedExpression", "DictKeyValue"), no_syntaxid=True)
+    common.add_env_full(u, real_typename=True, typehint_stub=True, real_ast=("LetDestination", "ExpressionWithComma", "ParenthesizedArguments", "ParenthesizedExpression", "DictKeyValue"), no_syntaxid=True)
     u.raw(common.TOP_SPEC, kind="spec")
     u.raw(common.VALUE_GLUE, kind="prelude")
     u.raw(GLUE2, kind="prelude")
@@ -465,6 +474,37 @@ def build(tier):
         loops={1: dict(invariant=[("frame", "env.stack.0@.len() >= 1, others_same(*old(env), *env), blocks(*env) == blocks(*old(env)), pend(*env) == pend(*old(env))"),
                                   ("pushed_only_when_found", "!found ==> vals(*env) == vals(*old(env)).drop_last()")],
                        decreases="fields@.len() - __i1")}))
+    OP_RULES = BASE_RULES + [UNREACH, common.CLONE,
+        rw.simple("F1", r"\brhs_float == 0\.0\b", "vfl_is_zero(rhs_float)"),
+        rw.simple("F1", r"\blhs_float \+ rhs_float\b", "vfl_add(lhs_float, rhs_float)"),
+        rw.simple("F1", r"\blhs_float - rhs_float\b", "vfl_sub(lhs_float, rhs_float)"),
+        rw.simple("F1", r"\blhs_float \* rhs_float\b", "vfl_mul(lhs_float, rhs_float)"),
+        rw.simple("F1", r"\blhs_float / rhs_float\b", "vfl_div(lhs_float, rhs_float)"),
+        rw.simple("local", r"Value::new\(Value_::Float\(", "Value::new(Value_::Float("),
+    ]
+    u.add_fn(EV, "eval_int_binop", rules=OP_RULES, contract=restore_contract("2", extra_requires=[("is_integer_operator", "op.kind is Add || op.kind is Subtract || op.kind is Multiply || op.kind is Divide || op.kind is Modulo || op.kind is Exponent || op.kind is BitwiseAnd || op.kind is BitwiseOr || op.kind is LessThan || op.kind is LessThanOrEqual || op.kind is GreaterThan || op.kind is GreaterThanOrEqual")], extra_ensures=[FRAME_NEUTRAL], props={"C07", "C02", "C06"}))
+    u.add_fn(EV, "eval_float_binop", rules=OP_RULES, contract=restore_contract("2", extra_requires=[("is_float_operator", "op.kind is AddFloat || op.kind is SubtractFloat || op.kind is MultiplyFloat || op.kind is DivideFloat")], extra_ensures=[FRAME_NEUTRAL], props={"C07", "C02", "C06"}))
+    SC_RULES = OP_RULES + [
+        rw.simple("R2", r"String::with_capacity\(lhs_str\.len\(\) \+ rhs_str\.len\(\)\)", "vS_new_with_room(lhs_str, rhs_str)"),
+        rw.simple("R2", r"out_str\.push_str\((\w+)\);", r"vS_push(&mut out_str, \1);"),
+    ]
+    u.add_fn(EV, "eval_string_concat", rules=SC_RULES, contract=restore_contract("2", extra_ensures=[FRAME_NEUTRAL], props={"C07", "C02", "C06"}))
+    AU_RULES = BASE_RULES + [
+        rw.simple("R2", r"env\.pop_value\(\)\.expect\(&format!\(\s*\"[^\"]*\",\s*op\.as_src\(\)\s*\)\)", "vexpect_value(env.pop_value())"),
+    ]
+    u.add_fn(EV, "eval_assign_update", rules=AU_RULES, contract=restore_contract("1", extra_ensures=[("blocks_and_pending_untouched", "blocks(*final(env)) == blocks(*old(env)) && pend(*final(env)) =~= pend(*old(env))", {"C06"})], props={"C07", "C02", "C06"},
+        extra_requires=[("variable_is_a_local_when_it_is_an_int", "get_var_result(variable, *old(env)) matches Some(v) && *v.0 is Int ==> b_has(top(*old(env)).bindings, variable.interned_id)")]))
+    LET_RULES = BASE_RULES + [
+        rw.simple("R5", r"for \(symbol, item\) in symbols\.iter\(\)\.zip\(items\) \{", "let mut __i1: usize = 0; while __i1 < symbols.len() && __i1 < items.len() { let symbol = &symbols[__i1]; let item = &items[__i1]; __i1 += 1;"),
+    ]
+    u.add_fn(EV, "eval_let", rules=LET_RULES, contract=restore_contract("1", extra_ensures=[("blocks_and_pending_untouched", "blocks(*final(env)) == blocks(*old(env)) && pend(*final(env)) =~= pend(*old(env))", {"C06"})], props={"C07", "C02", "C06"},
+        loops={1: dict(invariant=[("frame", "stack_frame.bindings.block_bindings@.len() == top(*old(env)).bindings.block_bindings@.len()")], decreases="symbols@.len() - __i1")}))
+    MC_RULES = BASE_RULES + [
+        # R13c: `X.map_err(|e| BODY)` is `match X { Ok(v) => Ok(v), Err(e) => Err(BODY) }` (definition of Result::map_err)
+        rw.simple("R13c", r"(eval_match_cases_on\(\s*env,\s*expr_value_is_used,\s*scrutinee_pos,\s*cases,\s*&scrutinee_value,?\s*\))\s*\.map_err\(\|e\| (\(RestoreValues\(vec!\[scrutinee_value\.clone\(\)\]\), e\))\)",
+                  r"match \1 { Ok(v) => Ok(v), Err(e) => Err(\2) }"),
+    ]
+    u.add_fn(EV, "eval_match_cases", rules=MC_RULES, contract=restore_contract("1", extra_ensures=[ONE_BLOCK_MORE], props={"C07", "C02", "C06"}))
     NS_RULES = BASE_RULES + [
         rw.simple("R2", r"\bns_info\.borrow\(\)", "vns_borrow(ns_info)"),
         rw.simple("R2", r"\bns_info\.values\.get\(&symbol\.name\)", "vns_get_value(&ns_info, &symbol.name)"),
@@ -505,6 +545,9 @@ def build(tier):
                  ("not_equal_is_its_negation", "expr_value_is_used && op.kind is NotEqual ==> vals(*final(env)) =~= vals(*old(env)).drop_last().drop_last().push(bool_val(!val_eq(%s, %s)))" % (L, R), {"C13"}),
                  ("other_frames_untouched", "others_same(*old(env), *final(env))", {"C07"}), FRAME_NEUTRAL],
         props={"C13", "C02"}))
+    u.add_fn(ENV, "current_frame", impl="Env", contract=Contract(
+        requires=[("nonempty", "self.stack.0@.len() >= 1")],
+        ensures=[("is_top", "*r == self.stack.0@.last()")], props={"C07"}))
     u.add_fn(EV, "done_subexpressions", impl="ExpressionState", contract=Contract(
         ensures=[("def", "r == (*self is EvaluatedSubexpressions)")], props={"C06"}))
     # ---- the block-handling arms of eval_expr (C06): every successful step keeps the frame's base block
@@ -610,8 +653,9 @@ def build(tier):
                                ("BoolOp", "BinaryOperatorKind::And"), ("StringConcat", "BinaryOperatorKind::StringConcat")):
         arm2_item(gname, binop_arm(kind_text), IS_BINOP, 2)
     arm2("Assign", "Expression_::Assign(variable, expr) => {", needs=1)
-    arm2("AssignUpdate", "Expression_::AssignUpdate(variable, op, expr) => {")
-    arm2("Let", "Expression_::Let(destination, hint, expr) => {")
+    arm2("AssignUpdate", "Expression_::AssignUpdate(variable, op, expr) => {", needs=1, extra_requires=[
+        ("variable_is_a_local_when_it_is_an_int", "outer_expr.expr_ matches Expression_::AssignUpdate(variable, _, _) ==> (get_var_result(&variable, *old(env)) matches Some(v) && *v.0 is Int ==> b_has(top(*old(env)).bindings, variable.interned_id))")])
+    arm2("Let", "Expression_::Let(destination, hint, expr) => {", needs=1)
     arm2("IntLiteral", "Expression_::IntLiteral(i) => {")
     arm2("FloatLiteral", "Expression_::FloatLiteral(f) => {")
     arm2("StringLiteral", "Expression_::StringLiteral(s) => {")
